@@ -245,11 +245,8 @@ def vSetIns (d : Data) (c : Ch) : Ch × List Op :=
 
 /-- `MD_Channel::set_ins` (instrument types other than PCM) -/
 def setIns (d : Data) (g : G) (c : Ch) : G × Ch × List Op :=
-  let i := d.get (u16 (c.var ev_INS))
-  if i.type = mdsdrv_INS_PCM then (g.fail .unsupported, c, []) else
-  let (c, o1) := vSetIns d c
-  let (c, o2) := setVol c
-  (g, c.clearFlag ev_INS, o1 ++ o2)
+  if (d.get (u16 (c.var ev_INS))).type = mdsdrv_INS_PCM then (g.fail .unsupported, c, []) else
+  (g, ((setVol (vSetIns d c).1).1).clearFlag ev_INS, (vSetIns d c).2 ++ (setVol (vSetIns d c).1).2)
 
 /-- `MD_Channel::key_off` (not FM3; `key_off_pcm` does nothing without PCM) → `v_key_off` -/
 def keyOff (c : Ch) : Ch × List Op :=
@@ -273,55 +270,45 @@ def updateTempo (g : G) (c : Ch) : G × Ch :=
   let t := c.var ev_TEMPO
   ({ g with tempoDelta := if c.bpm then bpmToDelta (u16 t) else u8 t }, c.clearFlag ev_TEMPO)
 
+/-- `case Event::NOTE:` up to the fall-through into `case Event::TIE:` -/
+def noteStart (g : G) (c : Ch) (e : Event) : G × Ch × List Op :=
+  let c1 : Ch := { c with notePitch := u16 ((e.param + c.var ev_TRANSPOSE) * 256 + c.var ev_DETUNE), keyOn := true }
+  if !c1.slur then
+    ((if (keyOff c1).1.var ev_PAN_ENVELOPE ≠ 0 then g.fail .unsupported else g), (keyOff c1).1, (keyOff c1).2)
+  else (g, c1, [])
+
+/-- `case Event::TIE:` (shared with `NOTE`): pending instrument or volume change -/
+def insOrVol (d : Data) (g : G) (c : Ch) : G × Ch × List Op :=
+  if c.flag ev_INS then ((setIns d g c).1, { (setIns d g c).2.1 with keyOn := true }, (setIns d g c).2.2)
+  else if c.flag ev_VOL_FINE then (g, (setVol c).1, (setVol c).2)
+  else (g, c, [])
+
 /-- `MD_Channel::write_event`; `c.evType` is `event.type` -/
 def writeEvent (d : Data) (g : G) (c : Ch) (e : Event) : G × Ch × List Op :=
   let t := c.evType
   if t = ev_SEGNO then ({ g with loopTrigger := true }, c, [])
-  else if t = ev_NOTE ∨ t = ev_TIE then
-    let (g, c, o1) : G × Ch × List Op :=
-      if t = ev_NOTE then
-        let c := { c with notePitch := u16 ((e.param + c.var ev_TRANSPOSE) * 256 + c.var ev_DETUNE), keyOn := true }
-        if !c.slur then
-          let (c, o) := keyOff c
-          if c.var ev_PAN_ENVELOPE ≠ 0 then (g.fail .unsupported, c, o) else (g, c, o)
-        else (g, c, [])
-      else (g, c, [])
-    if c.flag ev_INS then
-      let (g, c, o2) := setIns d g c
-      (g, { c with keyOn := true }, o1 ++ o2)
-    else if c.flag ev_VOL_FINE then
-      let (c, o2) := setVol c
-      (g, c, o1 ++ o2)
-    else (g, c, o1)
-  else if t = ev_END then
-    let (c, o) := keyOff c
-    ({ g with loopTrigger := true }, c, o)
-  else if t = ev_REST then
-    let (c, o) := keyOff c
-    (g, c, o)
+  else if t = ev_NOTE then
+    ((insOrVol d (noteStart g c e).1 (noteStart g c e).2.1).1, (insOrVol d (noteStart g c e).1 (noteStart g c e).2.1).2.1,
+     (noteStart g c e).2.2 ++ (insOrVol d (noteStart g c e).1 (noteStart g c e).2.1).2.2)
+  else if t = ev_TIE then insOrVol d g c
+  else if t = ev_END then ({ g with loopTrigger := true }, (keyOff c).1, (keyOff c).2)
+  else if t = ev_REST then (g, (keyOff c).1, (keyOff c).2)
   else if t = ev_SLUR then (g, { c with slur := true }, [])
-  else if t = ev_TEMPO ∨ t = ev_TEMPO_BPM then
-    let (g, c) := updateTempo g c
-    (g, c, [])
+  else if t = ev_TEMPO ∨ t = ev_TEMPO_BPM then ((updateTempo g c).1, (updateTempo g c).2, [])
   else if t = ev_PLATFORM then (g.fail .unsupported, c, [])
-  else if t = ev_PAN then
-    let (g, o) := vSetPan g c
-    (g, c, o)
+  else if t = ev_PAN then ((vSetPan g c).1, c, (vSetPan g c).2)
   else if t = ev_PAN_ENVELOPE then
     if c.var ev_PAN_ENVELOPE ≠ 0 then (g.fail .unsupported, c, []) else (g, c, [])
   else (g, c, [])
 
 /-- one `step_event` of the channel's player followed by its `write_event` call, if any -/
 def chStep (d : Data) (song : Song) (g : G) (c : Ch) : G × Ch × List Op :=
-  let (ps, w) := pstep song c.root (fun _ => false) false c.ps
-  let c := { c with ps := ps }
-  match ps.err with
-  | some _ => (g.fail .input, c, [])
-  | none =>
-    match w with
-    | [] => (g, { c with evType := ev_END }, [])
-    | e :: _ =>
-      writeEvent d g { c with evType := e.type } e
+  let r := pstep song c.root (fun _ => false) false c.ps
+  if r.1.err.isSome then (g.fail .input, { c with ps := r.1 }, [])
+  else
+    match r.2 with
+    | [] => (g, { c with ps := r.1, evType := ev_END }, [])
+    | e :: _ => writeEvent d g { c with ps := r.1, evType := e.type } e
 
 /-- `while(is_enabled() && !on_time && !off_time) step_event();` -/
 def chSettle (d : Data) (song : Song) : Nat → G → Ch → G × Ch × List Op
@@ -332,21 +319,26 @@ def chSettle (d : Data) (song : Song) : Nat → G → Ch → G × Ch × List Op
     let (g, c, o2) := chSettle d song fuel g c
     (g, c, o1 ++ o2)
 
+/-- `on_time--; play_time++` / `off_time--; play_time++` -/
+def Ch.decOn (c : Ch) : Ch :=
+  { c with ps := { c.ps with acc := { c.ps.acc with onTime := c.ps.acc.onTime - 1, playTime := c.ps.acc.playTime + 1 } } }
+def Ch.decOff (c : Ch) : Ch :=
+  { c with ps := { c.ps with acc := { c.ps.acc with offTime := c.ps.acc.offTime - 1, playTime := c.ps.acc.playTime + 1 } } }
+
+/-- the count-down part of `Player::play_tick` (a synthetic `REST` goes to `write_event`) -/
+def chDec (d : Data) (g : G) (c : Ch) : G × Ch × List Op :=
+  if c.ps.acc.onTime > 0 then
+    if c.ps.acc.onTime - 1 = 0 ∧ c.ps.acc.offTime > 0 then writeEvent d g { c.decOn with evType := ev_REST } restEvent
+    else (g, c.decOn, [])
+  else if c.ps.acc.offTime > 0 then (g, c.decOff, [])
+  else (g, c, [])
+
 /-- `Player::play_tick` with `MD_Channel::write_event` as the event handler -/
 def chTick (d : Data) (song : Song) (g : G) (c : Ch) : G × Ch × List Op :=
   if g.err.isSome then (g, c, []) else
-  let a := c.ps.acc
-  let (g, c, o1) : G × Ch × List Op :=
-    if a.onTime > 0 then
-      let a' := { a with onTime := a.onTime - 1, playTime := a.playTime + 1 }
-      let c := { c with ps := { c.ps with acc := a' } }
-      if a'.onTime = 0 ∧ a'.offTime > 0 then writeEvent d g { c with evType := ev_REST } restEvent
-      else (g, c, [])
-    else if a.offTime > 0 then
-      (g, { c with ps := { c.ps with acc := { a with offTime := a.offTime - 1, playTime := a.playTime + 1 } } }, [])
-    else (g, c, [])
-  let (g, c, o2) := chSettle d song settleFuel g c
-  (g, c, o1 ++ o2)
+  let r1 := chDec d g c
+  let r2 := chSettle d song settleFuel r1.1 r1.2.1
+  (r2.1, r2.2.1, r1.2.2 ++ r2.2.2)
 
 def chTicks (d : Data) (song : Song) : Nat → G → Ch → G × Ch × List Op
   | 0, g, c => (g, c, [])
@@ -399,26 +391,36 @@ def vKeyOn (c : Ch) : List Op :=
   | .fm bank id => ymW bank 0x28 id 0 15
   | _ => []
 
+/-- `v_update_envelope()` -/
+def chEnv (g : G) (c : Ch) : G × Ch × List Op :=
+  match isPsg c.kind with
+  | some id => psgEnvelope g c id
+  | none => (g, c, [])
+
+/-- `update_pitch(); if(pitch != last_pitch) set_pitch(); last_pitch = pitch;` (no portamento,
+no pitch envelope) -/
+def chPitch (c : Ch) : Ch × List Op :=
+  let p := u16 ((c.notePitch : Int) + c.insTranspose * 256)
+  ({ c with pitch := p, lastPitch := p }, if p ≠ c.lastPitch then vSetPitch { c with pitch := p } else [])
+
+/-- `if(key_on_flag) { if(!slur_flag) key_on(); slur_flag = false; key_on_flag = false; }` -/
+def chKeyOn (c : Ch) : Ch × List Op :=
+  (if c.keyOn then { c with slur := false, keyOn := false } else c, if c.keyOn ∧ !c.slur then vKeyOn c else [])
+
 /-- the part of `MD_Channel::update` after the tick loop -/
 def chAfter (g : G) (c : Ch) : G × Ch × List Op :=
   if g.err.isSome then (g, c, []) else
-  let (g, c, o1) := match isPsg c.kind with
-    | some id => psgEnvelope g c id
-    | none => (g, c, [])
-  -- update_pitch
-  let g := if c.var ev_PORTAMENTO ≠ 0 ∨ c.var ev_PITCH_ENVELOPE ≠ 0 then g.fail .unsupported else g
-  let c := { c with pitch := u16 ((c.notePitch : Int) + c.insTranspose * 256) }
-  let o2 := if c.pitch ≠ c.lastPitch then vSetPitch c else []
-  let c := { c with lastPitch := c.pitch }
-  let o3 := if c.keyOn ∧ !c.slur then vKeyOn c else []
-  let c := if c.keyOn then { c with slur := false, keyOn := false } else c
-  (g, c, o1 ++ o2 ++ o3)
+  let r1 := chEnv g c
+  let g2 := if r1.2.1.var ev_PORTAMENTO ≠ 0 ∨ r1.2.1.var ev_PITCH_ENVELOPE ≠ 0 then r1.1.fail .unsupported else r1.1
+  let r2 := chPitch r1.2.1
+  let r3 := chKeyOn r2.1
+  (g2, r3.1, r1.2.2 ++ r2.2 ++ r3.2)
 
 /-- `MD_Channel::update(seq_ticks)` -/
 def chUpdate (d : Data) (song : Song) (n : Nat) (g : G) (c : Ch) : G × Ch × List Op :=
-  let (g, c, o1) := chTicks d song n g c
-  let (g, c, o2) := chAfter g c
-  (g, c, o1 ++ o2)
+  let r1 := chTicks d song n g c
+  let r2 := chAfter r1.1 r1.2.1
+  (r2.1, r2.2.1, r1.2.2 ++ r2.2.2)
 
 /-! ### the driver -/
 structure Drv where
